@@ -5,7 +5,7 @@ use pdatastructs::reservoirsampling::ReservoirSampling;
 use serde_json::json;
 use std::sync::Mutex;
 
-pub const RULE: &str = "per (k, n) cell T independent RNG seeds; the stream is the position ids 0..n; inclusion counts per position (n <= 600) or per regional bin (first k, [k,2k), [2k,4k), position 4k, geometric bins, last k, last item). n <= 4k+1: every cell against exactly k/n (|z| > 5 flags; confirmation on fresh seeds with 8x trials, |z| > 6, same sign). n > 4k+1: |freq/(k/n) - 1| must stay within max(analytic allowance C/k*(1+ln(n/4k)), bias of the harness's own implementation of the documented algorithm on independent seeds) plus 5-6 sigma. non-trivial = one (k, n, seed) trial with n > k; distinct = (cell, trial) pairs";
+pub const RULE: &str = "per (k, n) cell T independent RNG seeds; the stream is the position ids 0..n; inclusion counts per position (n <= 600) or per regional bin (first k, [k,2k), [2k,4k), position 4k, geometric bins, last k, last item). n <= 4k+1: every cell against exactly k/n (|z| > 5 flags; confirmation on fresh seeds with 8x trials, |z| > 6, same sign). n > 4k+1: |freq/(k/n) - 1| must stay within max(analytic allowance C/k*(1+ln(n/4k)), bias of the harness's own implementation of the documented algorithm on independent seeds) plus 5-6 sigma. additionally k=1 with n = 4x10^7 (n/k > 2^25) and a dispersion (chi-square) test over the first k positions for k = 3*2^19, n = 32k; non-trivial = one (k, n, seed) trial with n > k; distinct = (cell, trial) pairs";
 pub const ASSUMPTIONS: &[&str] = &[
     "binomial variance is used for bins (conservative: inclusions of different positions are negatively correlated)",
     "the reference sampler is the documented algorithm: Algorithm R up to 4k items, then geometric gaps with p = k/(i+1) frozen per gap",
@@ -19,6 +19,10 @@ const KS: [usize; 8] = [1, 2, 3, 5, 8, 16, 64, 100];
 
 fn ns_for(k: usize, tier: Tier) -> Vec<usize> {
     let mut v = vec![k + 1, k + 2, 2 * k, 4 * k - 1, 4 * k, 4 * k + 1, 4 * k + 2, 5 * k, 6 * k, 10 * k, 50 * k];
+    if k == 1 {
+        // n/k beyond 2^25: gap arithmetic carried out in too little precision shows only here
+        v.push(40_000_000);
+    }
     if k >= 64 {
         v.push(10_000);
         if tier == Tier::Thorough {
@@ -246,6 +250,37 @@ fn evaluate(k: usize, n: usize, trials: usize, bounds: &[usize], names: &[&'stat
     flags
 }
 
+/// Dispersion test for a big reservoir: the first k stream positions are exchangeable, so their
+/// inclusion counts over T trials must be binomially dispersed around their common mean. A slot
+/// choice that is not uniform (visible only when k approaches the resolution of the random source)
+/// inflates the dispersion. Returns (z, mean count).
+fn dispersion(ctx: &Ctx, k: usize, n: usize, trials: usize, stage: u64) -> (f64, f64, Report) {
+    let counts: Mutex<Vec<u16>> = Mutex::new(vec![0u16; k]);
+    let hooks = par_run(ctx, trials, |t, _| {
+        let seed = ctx.sub_seed(&[0xD15, stage, k as u64, t as u64]);
+        let mut s: ReservoirSampling<u32, CtlRng> = ReservoirSampling::new(k, CtlRng::fast(seed));
+        for p in 0..n as u32 {
+            s.add(p);
+            if p & 0xff_ffff == 0 {
+                beat();
+            }
+        }
+        let mut g = counts.lock().unwrap();
+        for p in s.reservoir() {
+            if (*p as usize) < k {
+                g[*p as usize] += 1;
+            }
+        }
+    });
+    let c = counts.into_inner().unwrap();
+    let t = trials as f64;
+    let mean = c.iter().map(|x| *x as f64).sum::<f64>() / k as f64;
+    let var_h0 = mean * (1.0 - mean / t);
+    let chi2: f64 = c.iter().map(|x| (*x as f64 - mean).powi(2)).sum::<f64>() / var_h0.max(1e-12);
+    let dof = (k - 1) as f64;
+    ((chi2 - dof) / (2.0 * dof).sqrt(), mean, hooks)
+}
+
 pub fn run(ctx: &Ctx) -> Report {
     let mut rep = Report::new();
     let budget: f64 = ctx.tier.pick(1.6e7, 2e8); // adds per cell
@@ -264,7 +299,7 @@ pub fn run(ctx: &Ctx) -> Report {
                     }
                 }
                 let b = if rk == RngKind::ChaCha { budget / 8.0 } else { budget };
-                let trials = ((b / n as f64) as usize).clamp(2000, 4_000_000);
+                let trials = if n >= 10_000_000 { ctx.tier.pick(8, 40) } else { ((b / n as f64) as usize).clamp(2000, 4_000_000) };
                 let (bounds, names) = bins(k, n);
                 let mut counts = run_trials(ctx, k, n, trials, 1, rk, &bounds);
                 rep.merge(std::mem::take(&mut counts.hooks));
@@ -322,6 +357,34 @@ pub fn run(ctx: &Ctx) -> Report {
                 }
                 cells_json.push(cell);
             }
+        }
+    }
+    // big reservoirs: dispersion of the first k positions
+    if ctx.only.is_none() || ctx.only.as_deref() == Some("dispersion") {
+        let big: Vec<usize> = if ctx.tier == Tier::Thorough { vec![3 << 19, 1_000_003] } else { vec![3 << 19] };
+        for k in big {
+            let n = 32 * k;
+            let trials = ctx.tier.pick(16, 48);
+            let (z, mean, hooks) = dispersion(ctx, k, n, trials, 1);
+            rep.merge(hooks);
+            rep.evaluations += (trials * n) as u64;
+            rep.max("dispersion_z_first_k_positions(big k)", z);
+            rep.config(format!("dispersion k={} n={} trials={}", k, n, trials));
+            let mut cell = json!({"cell": format!("dispersion/k={}/n={}", k, n), "trials": trials, "mean_count_per_position": mean, "expected": trials as f64 * k as f64 / n as f64, "z": z});
+            if z > 6.0 {
+                let (z2, mean2, _) = dispersion(ctx, k, n, trials * 2, 2);
+                rep.evaluations += (2 * trials * n) as u64;
+                cell["stage2_z"] = json!(z2);
+                if z2 > 6.0 {
+                    rep.violation_mag(
+                        format!("C05/gap/k={}/n={}/first-k-dispersion", k, n),
+                        format!("ReservoirSampling k={} after n={} adds: the inclusion counts of the first k stream positions (exchangeable, expected {:.3} per position over {} trials) are over-dispersed: chi-square z = {:.1} (stage 1), {:.1} (stage 2, {} fresh trials, mean {:.3}); some of these positions are systematically favoured", k, n, mean, trials, z, z2, trials * 2, mean2),
+                        json!({"k": k, "n": n, "stage1": {"trials": trials, "z": z}, "stage2": {"trials": trials * 2, "z": z2}}),
+                        z2,
+                    );
+                }
+            }
+            cells_json.push(cell);
         }
     }
     rep.max("worst_abs_z_in_exact_cells", worst[0]);
